@@ -450,6 +450,24 @@ pub fn long_uptime(rng: &mut Rng, lines: &mut [(i64, Vec<u8>, String)], p_run: f
     lines[0].2 = format!("{}:long-uptime", lines[0].2);
 }
 
+/// With probability `p_run` the traffic of the run begins a few seconds before a calendar boundary of the
+/// simulated wall clock (which starts at 2023-11-14 22:13:20 UTC): the next midnights, the end of the month,
+/// new year, the leap day, 2^31 s - so that what follows straddles it.
+pub fn near_time_boundary(rng: &mut Rng, lines: &mut [(i64, Vec<u8>, String)], p_run: f64) {
+    if lines.is_empty() || !rng.chance(p_run) { return; }
+    let s = 1_000_000i64;
+    let boundary_s = match rng.below(8) {
+        0..=2 => 6_400 + 86_400 * rng.range(0, 3),   // a midnight
+        3 => 1_388_800,                              // 2023-12-01 00:00
+        4 => 4_067_200,                              // 2024-01-01 00:00
+        5 => 9_164_800,                              // 2024-02-29 00:00
+        6 => 447_483_648,                            // 2^31 s
+        _ => 6_400 + 86_400 * rng.range(3, 400),
+    };
+    lines[0].0 = boundary_s * s - rng.range(0, 12 * s);
+    lines[0].2 = format!("{}:near-time-boundary", lines[0].2);
+}
+
 // ------------------------------------------------------------------- chunking
 
 #[derive(Clone, Copy, Debug, PartialEq, Eq)]
